@@ -46,6 +46,15 @@ class PathCap(BaseException):
 DEFAULT_TIMEOUT_MS = 20000
 
 
+HASH_ZERO = [False]  # see DESIGN §2: proxies hash to 0 (== hash(0.0)) when a harness enables it
+
+
+def _proxy_hash(kind: str) -> int:
+    if HASH_ZERO[0]:
+        return 0
+    raise Realise("hash(%s)" % kind)
+
+
 class Ctx:
     cur: "Ctx | None" = None
 
@@ -243,7 +252,6 @@ def is_sym(x: Any) -> bool:
 
 class SBool:
     __slots__ = ("e",)
-    __array_priority__ = 1000
 
     def __init__(self, e: Any):
         self.e = e
@@ -328,7 +336,6 @@ def _pos_const(o: Any) -> int | None:
 
 class SInt:
     __slots__ = ("e",)
-    __array_priority__ = 1000
 
     def __init__(self, e: Any):
         self.e = e
@@ -472,7 +479,7 @@ class SInt:
         return True if r is NotImplemented else r
 
     def __hash__(s) -> int:
-        raise Realise("hash(SInt)")
+        return _proxy_hash("SInt")
 
     def __bool__(s) -> bool:
         return ctx().branch(s.e != 0)
@@ -543,7 +550,6 @@ class SReal:
     """A float modelled as an exact real (see DESIGN §3, R-mode)."""
 
     __slots__ = ("e",)
-    __array_priority__ = 1000
 
     def __init__(self, e: Any):
         self.e = e
@@ -675,7 +681,7 @@ class SReal:
         return True if r is NotImplemented else r
 
     def __hash__(s) -> int:
-        raise Realise("hash(SReal)")
+        return _proxy_hash("SReal")
 
     def __bool__(s) -> bool:
         return ctx().branch(s.e != 0)
@@ -904,6 +910,14 @@ class SFix(SReal):
     def __truediv__(s, o):
         j = _pow10(o)
         if j is None:
+            o_ = _np_item(o)
+            if isinstance(o_, builtins.float) and o_ == builtins.int(o_):
+                o_ = builtins.int(o_)
+            if isinstance(o_, builtins.int) and not isinstance(o_, bool) and o_ != 0:
+                # 1/o is a finite decimal (o = 2^a 5^b): stay in fixed point
+                for q in range(1, 7):
+                    if 10**q % o_ == 0:
+                        return SFix(s.k * (10**q // o_), s.p + q)
             return SReal.__truediv__(s, o)
         return s.__mul__(10.0 ** (-j)) if j > 0 else s.__mul__(10 ** (-j))
 
@@ -934,7 +948,7 @@ class SFix(SReal):
         return s._c(o, lambda a, b: a != b, lambda o: SReal.__ne__(s, o))
 
     def __hash__(s) -> int:
-        raise Realise("hash(SFix)")
+        return _proxy_hash("SFix")
 
     def round(s, decimals=0):
         if decimals >= s.p:
@@ -1006,6 +1020,11 @@ def ITE(c: Any, a: Any, b: Any) -> Any:
         a_, b_ = _np_item(a), _np_item(b)
         if isinstance(a_, SBool) or isinstance(b_, SBool):
             return SBool(z3.If(c.e, _b(a_), _b(b_)))
+        if isinstance(a_, SFix) or isinstance(b_, SFix):
+            fa, fb = SFix.lift(a_), SFix.lift(b_)
+            if fa is not None and fb is not None:
+                al = fa._al(fb)
+                return SFix(z3.If(c.e, al[0], al[1]), al[2])
         if isinstance(a_, (SReal, builtins.float)) or isinstance(
             b_, (SReal, builtins.float)
         ):
@@ -1323,3 +1342,108 @@ def run_concrete(harness: Callable[[Inputs], list], values: dict) -> dict:
         res.setdefault(label, True)
         res[label] = res[label] and bool(ob)
     return dict(results=res, violated_assumption=inp.violated_assumption)
+
+
+# --------------------------------------------------------------------------
+# SPhase: angles on the grid 2*pi*k/N (integer arithmetic for x % 2*pi)
+# --------------------------------------------------------------------------
+
+TWO_PI_F = Fraction(2 * math.pi)
+
+
+class SPhase(SReal):
+    """value = k * (2*pi / N), k a z3 Int term, 2*pi the exact double.
+
+    Closed under + - neg, `% (2*pi)` (-> k mod N) and comparisons with
+    other grid angles / 0 / 2*pi, so that phase bookkeeping stays in linear
+    integer arithmetic (nested floor() over reals does not terminate)."""
+
+    __slots__ = ("k", "N")
+
+    def __init__(self, k: Any, N: int):
+        self.k = k
+        self.N = N
+        SReal.__init__(self, z3.ToReal(k) * ratval(TWO_PI_F / N))
+
+    def _lift(self, o: Any) -> Any:
+        o = _np_item(o)
+        if isinstance(o, SPhase):
+            return o.k if o.N == self.N else None
+        if isinstance(o, (SReal, SInt)):
+            return None
+        if isinstance(o, bool):
+            return None
+        if isinstance(o, (builtins.int, builtins.float)) and math.isfinite(o):
+            q = Fraction(o) / (TWO_PI_F / self.N)
+            if q.denominator == 1:
+                return z3.IntVal(q.numerator)
+        return None
+
+    def _ar(self, o, f, fb):
+        ok = self._lift(o)
+        if ok is None:
+            return fb(o)
+        return SPhase(f(self.k, ok), self.N)
+
+    def __add__(s, o):
+        return s._ar(o, lambda a, b: a + b, lambda o: SReal.__add__(s, o))
+
+    __radd__ = __add__
+
+    def __sub__(s, o):
+        return s._ar(o, lambda a, b: a - b, lambda o: SReal.__sub__(s, o))
+
+    def __rsub__(s, o):
+        return s._ar(o, lambda a, b: b - a, lambda o: SReal.__rsub__(s, o))
+
+    def __neg__(s):
+        return SPhase(-s.k, s.N)
+
+    def __mod__(s, o):
+        o_ = _np_item(o)
+        if isinstance(o_, builtins.float) and Fraction(o_) == TWO_PI_F:
+            return SPhase(s.k % s.N, s.N)
+        return SReal.__mod__(s, o)
+
+    def _cp(self, o, f, fb):
+        ok = self._lift(o)
+        if ok is None:
+            return fb(o)
+        return SBool(f(self.k, ok))
+
+    def __lt__(s, o):
+        return s._cp(o, lambda a, b: a < b, lambda o: SReal.__lt__(s, o))
+
+    def __le__(s, o):
+        return s._cp(o, lambda a, b: a <= b, lambda o: SReal.__le__(s, o))
+
+    def __gt__(s, o):
+        return s._cp(o, lambda a, b: a > b, lambda o: SReal.__gt__(s, o))
+
+    def __ge__(s, o):
+        return s._cp(o, lambda a, b: a >= b, lambda o: SReal.__ge__(s, o))
+
+    def __eq__(s, o):  # type: ignore[override]
+        return s._cp(o, lambda a, b: a == b, lambda o: SReal.__eq__(s, o))
+
+    def __ne__(s, o):  # type: ignore[override]
+        return s._cp(o, lambda a, b: a != b, lambda o: SReal.__ne__(s, o))
+
+    def __hash__(s) -> int:
+        return _proxy_hash("SPhase")
+
+    def __repr__(s):
+        return "<SPhase %s * 2pi/%d>" % (s.k, s.N)
+
+
+def _inputs_phase(self, name: str, N: int = 16, lo_turns: int = -4, hi_turns: int = 4):
+    """An angle 2*pi*k/N with k an integer in [lo_turns*N, hi_turns*N]."""
+    if self.concrete:
+        return builtins.int(self.values[name]) * (2 * math.pi / N)
+    t = z3.Int(name)
+    self.decl[name] = {"kind": "int", "term": t, "proxy": SPhase(t, N)}
+    ctx().assume(z3.And(t >= lo_turns * N, t <= hi_turns * N))
+    return SPhase(t, N)
+
+
+Inputs.phase = _inputs_phase
